@@ -75,8 +75,18 @@ def run(ctx: Ctx) -> None:
             r.viol(f"{key}|{seg(f, node)}", f.loc(node), f"{key}: {msg}", ["path:"] + labels)
     r.floor(7)
 
-    r = ctx.rule("R13.run", "run() is the step loop plus wall-clock bookkeeping")
-    for cn in ("RiscvSimulation", "ToySimulation"):
+    run_rule(ctx, "R13.run")
+
+    r = ctx.rule("R13.ret", "step() returns `not self.is_done()` on every path")
+    _ret_rule_body(ctx, r)
+    _rest_of_run(ctx)
+
+
+def run_rule(ctx: Ctx, rid: str = "R13.run", classes=("RiscvSimulation", "ToySimulation")) -> None:
+    m = ctx.model
+    eff = effects(ctx)
+    r = ctx.rule(rid, "run() is the step loop plus wall-clock bookkeeping")
+    for cn in classes:
         f = m.method(cn, "run", own=True)
         key = f"{cn}.run"
         loops = [n for n in walk_no_nested(f.node) if isinstance(n, (ast.While, ast.For))]
@@ -96,9 +106,11 @@ def run(ctx: Ctx) -> None:
             if not via_step and not (w.path and w.path[-1] in TIMER_FIELDS):
                 r.viol(f"{key}|{w.text}", w.origin, f"{key} writes simulated state outside step(): {w.describe()}",
                        list(w.chain))
-    r.floor(2)
+    r.floor(len(classes))
 
-    r = ctx.rule("R13.ret", "step() returns `not self.is_done()` on every path")
+
+def _ret_rule_body(ctx: Ctx, r) -> None:
+    m = ctx.model
     for cn in ("RiscvSimulation", "ToySimulation"):
         f = m.method(cn, "step", own=True)
         key = f"{cn}.step"
@@ -125,6 +137,10 @@ def run(ctx: Ctx) -> None:
         r.inst(key, {"non_raising_paths": n})
     r.floor(2)
 
+
+def _rest_of_run(ctx: Ctx) -> None:
+    m = ctx.model
+    eff = effects(ctx)
     r = ctx.rule("R13.pure", "is_done() closure is effect-free")
     for cn in ("RiscvSimulation", "ToySimulation"):
         f = m.method(cn, "is_done", own=True)
@@ -148,6 +164,10 @@ def done_rule(ctx: Ctx, rid: str) -> None:
     from ..parsershape import normal_flow
     m = ctx.model
     r = ctx.rule(rid, "definition of done (truth-function comparison)")
+    f = m.method("RiscvSimulation", "is_done")
+    ok, shown = same_truth_function(m, f, "self.state.pipeline.is_done()")
+    r.check(ok, "RiscvSimulation.is_done", f.loc(), f"RiscvSimulation.is_done is `{shown}`, not the pipeline's `is_done()`: execution would end on something "
+            "other than `the pc holds no instruction` / `an exit ecall was executed`")
     f = m.method("Pipeline", "is_done")
     ok, shown = same_truth_function(m, f, "self.state.exit_code is not None or (self.is_empty() and not self.state.instruction_at_pc())")
     r.check(ok, "Pipeline.is_done", f.loc(),
